@@ -294,7 +294,8 @@ SigOf(pw) ==
        ELSE IF pred = "Inv_RuntimeEqualsCache" /\ w[2] = "mems" /\ w[1] \in DOMAIN ctrs' /\ ctrs'[w[1]].res.mems = {}
             THEN "cache-mems-emptied-runtime-keeps-old"
        ELSE IF pred = "Inv_ExclNotInOthersTold" /\ emptied(w[2]) THEN "other-cpuset-emptied-runtime-keeps-old"
-       ELSE IF pred = "Inv_ToldWithinAllowed" /\ emptied(w) THEN "cache-cpuset-emptied-runtime-keeps-old"
+       ELSE IF pred \in {"Inv_ToldWithinAllowed", "Inv_ReservedOnlyReservedClass", "Inv_IsolatedOnlyByGrant"} /\ emptied(w)
+            THEN "cache-cpuset-emptied-runtime-keeps-old"
        ELSE IF pred = "Inv_ExclNotInOthersTold" /\ IsTA /\ ~\E g \in SetOf(pol'.grants) : g.c = w[2]
             THEN "other-container-holds-no-grant"
        \* consequence of F-C05-5/F-C13-3: a configuration rejected while being applied left a cpuset in the cache that
@@ -396,8 +397,9 @@ TrStep ==
                     [] OTHER -> stopped
     /\ CASE E.ev = "Create" ->
               /\ rtlive' = IF Ok THEN rtlive \cup {E.c} ELSE rtlive \ {E.c}
-              /\ rt' = ApplyUpds(IF Ok THEN (E.c :> ResOf(E.adj)) @@ rt ELSE rt, E.upd)
-         [] E.ev = "Stop" -> rtlive' = rtlive \ {E.c} /\ rt' = ApplyUpds(rt, E.upd)
+              \* (unsolicited updates pushed while the request is served reach the runtime before its reply does)
+              /\ rt' = ApplyUpds(ApplyBatches(IF Ok THEN (E.c :> ResOf(E.adj)) @@ rt ELSE rt, E.pushed), E.upd)
+         [] E.ev = "Stop" -> rtlive' = rtlive \ {E.c} /\ rt' = ApplyUpds(ApplyBatches(rt, E.pushed), E.upd)
          [] E.ev = "Remove" -> rtlive' = rtlive \ {E.c} /\ rt' = ApplyBatches([x \in DOMAIN rt \ {E.c} |-> rt[x]], E.pushed)
          [] E.ev \in {"StopPod", "RemovePod"} ->
               /\ rtlive' = {c \in rtlive : ~(c \in DOMAIN ctrs /\ ctrs[c].pod = E.pod)} /\ rt' = rt
@@ -406,7 +408,7 @@ TrStep ==
               IN /\ rtlive' = live2
                  /\ rt' = ApplyUpds([c \in live2 |-> IF c \in DOMAIN rt THEN rt[c] ELSE <<>>], E.upd)
          [] E.ev = "Reconfigure" -> rtlive' = rtlive /\ rt' = ApplyBatches(rt, E.pushed)
-         [] OTHER -> rtlive' = rtlive /\ rt' = ApplyUpds(rt, E.upd)
+         [] OTHER -> rtlive' = rtlive /\ rt' = ApplyUpds(ApplyBatches(rt, E.pushed), E.upd)
     /\ excused' = Excused2
     \* between a plugin restart and the Synchronize request that always follows it the state is transient (stale cache,
     \* nothing allocated yet): state invariants are not judged there, whatever is wrong after the Synchronize is its doing
